@@ -58,6 +58,11 @@ func specRun(on bool, rules []ruleJ, req []bool) (*obsJ, []string) {
 				}
 				r := ag[i]
 				if !live(r) {
+					if r.Marker != "" {
+						kinds = append(kinds, "marker-removed-by-id-0")
+					} else {
+						kinds = append(kinds, "removed-rule-passed-over")
+					}
 					i++
 					continue
 				}
@@ -157,6 +162,8 @@ func specRun(on bool, rules []ruleJ, req []bool) (*obsJ, []string) {
 					for n := skipN; n > 0 && next < len(ag); next++ {
 						if live(ag[next]) {
 							n--
+						} else {
+							kinds = append(kinds, "skip-window-holds-removed-entry")
 						}
 					}
 				}
